@@ -6,6 +6,7 @@ import (
 	"os"
 	"sort"
 	"strings"
+	"time"
 )
 
 func main() {
@@ -23,6 +24,8 @@ func main() {
 }
 
 var defaultModules = []string{"distsys"}
+
+var startTime = time.Now()
 
 func cmdCheck(args []string) int {
 	fs := flag.NewFlagSet("check", flag.ExitOnError)
@@ -69,7 +72,12 @@ func cmdCheck(args []string) int {
 		eng.ghosts[gd.name] = &gd
 	}
 	run := eng.runProperty(*prop, *only)
-	return run.report(eng, *prop, *tier, *verif)
+	if *only != "" {
+		return run.report(eng, *prop, *tier, *verif)
+	}
+	seed := 0
+	fmt.Sscan(os.Getenv("VERIF_SEED"), &seed)
+	return run.writeReport(eng, reportOpts{prop: *prop, tier: *tier, verif: *verif, seed: seed, start: startTime})
 }
 
 type PropRun struct {
